@@ -34,7 +34,7 @@ RULE = (
     "(document text, position, path); non-trivial = the planted line is beyond line 1 and at least one "
     "call-site frame lies in a template."
 )
-RULE += ' added since: positions for-iterable, loop body, elif/while tests, <%call expr>, tag attribute, include file expression, functions of a first and second <%! %> block (also through a namespace), relay back through caller.body(); warnings from literal comparisons, invalid escapes in for iterables, def bodies and module blocks; relative module_directory / module_filename; alternating frames of two templates. module directory reached through a symbolic link. the format_exceptions page through render() with an output encoding.'
+RULE += ' added since: positions for-iterable, loop body, elif/while tests, <%call expr>, tag attribute, include file expression, functions of a first and second <%! %> block (also through a namespace), relay back through caller.body(); warnings from literal comparisons, invalid escapes in for iterables, def bodies and module blocks; relative module_directory / module_filename; alternating frames of two templates. module directory reached through a symbolic link. the format_exceptions page through render() with an output encoding. filler holding U+2028, U+2029, U+0085, FF, VT, FS-US (line breaks for str.splitlines only).'
 ASSUMPTIONS = [
     "generated glue frames that correspond to no construct (def stubs, cache wrappers) are only required to carry "
     "the right template identity and a line inside the source",
@@ -113,6 +113,12 @@ FILL = [
     lambda r, nl: "<%doc>" + nl + "doc" + nl + "</%doc>" + nl,
     lambda r, nl: "multi" + nl + "line" + nl,
     lambda r, nl: "% for fi_ in (1, 2):" + nl + "${fi_}" + nl + "% endfor" + nl,
+    # characters that str.splitlines() takes for line breaks but neither Python nor Mako does: they do not move lines
+    lambda r, nl: "${'a\u2028b'} sep" + nl,
+    lambda r, nl: "x ${\"p\u2029q\" + '\x85'} y" + nl,
+    lambda r, nl: "% if 'v\x0cw\x1c':" + nl + "  in\x0bside \x1d\x1e" + nl + "% endif" + nl,
+    lambda r, nl: "plain \u2028 text \x0c and \x85" + nl,
+    lambda r, nl: "<%text>t\u2028\x0c</%text>${'\u2029' + '\x1c'}" + nl,
 ]
 
 
